@@ -151,6 +151,10 @@ func init() {
 		rtPkg + ".IteU64": func(m *Machine, _ *Thread, _ *Frame, a []Value, _ ssa.Value) Value {
 			return Ite(a[0].(*Term), a[1].(*Term), a[2].(*Term))
 		},
+		rtPkg + ".Weak": func(m *Machine, _ *Thread, _ *Frame, a []Value, _ ssa.Value) Value {
+			m.weak = appendUniq(m.weak, []string{m.litArg(a[0], "reason")}, 20)
+			return nil
+		},
 		rtPkg + ".LazySigs": func(m *Machine, _ *Thread, _ *Frame, a []Value, _ ssa.Value) Value {
 			fv, ok := a[0].(*FuncV)
 			if !ok || fv == nil {
